@@ -160,9 +160,9 @@ def judge_epoch(drv, trace, log, ei, final):
                 return fail(f"{tagp}: after the LBAD of cycle {lbads[-1]} headers {p}..{hi - 1} were unacknowledged but "
                             f"header {p} (seq {want[p]['seq']}) was not retransmitted by the end of the run (cycle {n})",
                             signature="unacknowledged-header-not-retransmitted")
-            at_lbad = any(c + 1 == A[p][0] for c in lbads)
+            at_lbad = any(c + 1 == t for c in lbads for t, _ in A)
             return fail(f"{tagp}: header {p} (seq {want[p]['seq']}) accepted from the queue in cycle {A[p][0]}"
-                        + (" (the cycle an LBAD was decoded)" if at_lbad else "") + f" was never "
+                        + (" (a header was accepted in the very cycle an LBAD was decoded)" if at_lbad else "") + f" was never "
                         f"transmitted although the run drained (cycle {n}, {len(credits)} credits)",
                         signature="header-accepted-at-lbad-never-transmitted" if at_lbad
                         else "accepted-header-never-transmitted")
@@ -172,7 +172,7 @@ def judge_epoch(drv, trace, log, ei, final):
 
 class HeaderTxSub(Sub):
     name = "hptx"
-    budget = {"quick": 3000, "thorough": 50000}
+    budget = {"quick": 5000, "thorough": 80000}
     shrink_budget = 500
     rule = ("closed loop around PacketTransmitter(buffer_count=4): protocol layer offers 2..24 headers (random content, "
             "all four types; offer times random or aimed at -3..+4 cycles around the partner's next LBAD word); the "
